@@ -196,6 +196,18 @@ TABLE["C14"][2].extend([
    ("alg_peval_defined", "C14_algebraic_total", "on the algebraic fragment evaluation of a well-shaped expression is always defined and has the inferred shape"),
 ])
 TABLE["C14"] = (TABLE["C14"][0], ["Base", "Circ", "Multiply", "Algebra", "Hom", "Scalar", "Tensor", "Pexpr", "PShapes"], TABLE["C14"][2])
+TABLE["C06"][2].extend([
+   ("evidence_exec_den", "C06_evidence_executable", "EXECUTABLE level, every layer kind, no structural hypothesis: the circuit returned by evidence_m (model of cirkit.symbolic.functional.evidence) evaluated at y has, node by node, the values of the original circuit at y overridden by the observation"),
+   ("evidence_exec_sem", "C06_evidence_executable_semantic", "... and on the algebraic fragment this is the semantic evidence operator of C06_evidence"),
+   ("concatenate_exec_den", "C06_concatenate_executable", "EXECUTABLE level, every layer kind: the node values of concatenate_m cs are the operands' node values one after the other"),
+   ("concatenate_exec_outs", "C06_concatenate_executable_outputs", "the outputs of concatenate_m cs are the operands' outputs in order, provided each operand's outputs are valid node indices (sharp: Link2.Example2.ex_cat_sharp)"),
+])
+TABLE["C06"] = (TABLE["C06"][0], ["Base", "Circ", "OpsSimple", "Scalar", "Tensor", "Pexpr", "Exec", "Ops", "Struct", "Link", "Link2"], TABLE["C06"][2])
+TABLE["C07"][2].extend([
+   ("conjugate_conjugate_den", "C07_involutive_executable", "EXECUTABLE level, every layer kind conjugate_m accepts: conjugating twice gives back a circuit with the original denotation at every node"),
+   ("conjugate_m_twice", "C07_second_conjugation_defined", "the second conjugation never fails once the first succeeded"),
+])
+TABLE["C07"] = (TABLE["C07"][0], TABLE["C07"][1] + ["Link2"], TABLE["C07"][2])
 
 if __name__ == "__main__":
     for pid in (sys.argv[1:] or TABLE):
